@@ -173,4 +173,8 @@ HX void hx_macros(uint64_t policy, uint64_t kinds, uint64_t how) {
    const int before = d->count;
    try { LOG_LEVEL("no-such-log", error) << "text"; LOG_LEVEL((id_t) (other << 1), error) << "text"; } catch (...) { rc = 1; }
    vs_assert(rc == 0 && d->count == before && d2->count == 0, "a log that does not exist receives nothing, logging to it does not fail");
+   // (4) the log is created after it was looked up in vain: from then on it receives its messages
+   id_t late = lg.findCreateLog("no-such-log"); RecDest* dl = new RecDest; lg.getLog(late)->addDestination("d", dl);
+   try { LOG_LEVEL("no-such-log", error) << LogClass::data << "text"; LOG_LEVEL(late, warning) << LogClass::data << "text"; } catch (...) { rc = 1; }
+   vs_assert(rc == 0 && dl->count == 2, "a log created after an unsuccessful lookup of its name receives the messages logged to it afterwards");
 }
